@@ -691,6 +691,120 @@ where
     }
 }
 
+/// Verification hooks (feature `verif-hooks`, off by default): read/write access to the adaptation
+/// state and public wrappers of the private tree-building functions, used by /verif's native replay.
+#[cfg(feature = "verif-hooks")]
+impl<T, B, GTarget> NUTSChain<T, B, GTarget>
+where
+    T: Float + ElementConversion + Element + SampleUniform + FromPrimitive,
+    B: AutodiffBackend,
+    GTarget: GradientTarget<T, B> + std::marker::Sync,
+    StandardNormal: rand::distr::Distribution<T>,
+    StandardUniform: rand_distr::Distribution<T>,
+    rand_distr::Exp1: rand_distr::Distribution<T>,
+{
+    pub fn verif_rng(&self) -> &SmallRng {
+        &self.rng
+    }
+    /// (epsilon, epsilon_bar, h_bar, mu, m, n_discard)
+    pub fn verif_adapt(&self) -> (T, T, T, T, usize, usize) {
+        (self.epsilon, self.epsilon_bar, self.h_bar, self.mu, self.m, self.n_discard)
+    }
+    pub fn verif_set_adapt(&mut self, epsilon: T, epsilon_bar: T, h_bar: T, mu: T, m: usize, n_discard: usize) {
+        self.epsilon = epsilon;
+        self.epsilon_bar = epsilon_bar;
+        self.h_bar = h_bar;
+        self.mu = mu;
+        self.m = m;
+        self.n_discard = n_discard;
+    }
+}
+
+#[cfg(feature = "verif-hooks")]
+impl<T, B, GTarget> NUTS<T, B, GTarget>
+where
+    T: Float + ElementConversion + Element + SampleUniform + FromPrimitive,
+    B: AutodiffBackend,
+    GTarget: GradientTarget<T, B> + Sync,
+    StandardNormal: rand::distr::Distribution<T>,
+    StandardUniform: rand_distr::Distribution<T>,
+    rand_distr::Exp1: rand_distr::Distribution<T>,
+{
+    pub fn verif_chains(&self) -> &Vec<NUTSChain<T, B, GTarget>> {
+        &self.chains
+    }
+    pub fn verif_chains_mut(&mut self) -> &mut Vec<NUTSChain<T, B, GTarget>> {
+        &mut self.chains
+    }
+}
+
+#[cfg(feature = "verif-hooks")]
+#[allow(clippy::too_many_arguments, clippy::type_complexity)]
+pub mod verif_hooks {
+    use super::*;
+
+    pub fn build_tree<B, T, GTarget>(
+        position: Tensor<B, 1>,
+        mom: Tensor<B, 1>,
+        grad: Tensor<B, 1>,
+        logu: T,
+        v: i8,
+        j: usize,
+        epsilon: T,
+        gradient_target: &GTarget,
+        joint_0: T,
+        rng: &mut SmallRng,
+    ) -> (
+        Tensor<B, 1>,
+        Tensor<B, 1>,
+        Tensor<B, 1>,
+        Tensor<B, 1>,
+        Tensor<B, 1>,
+        Tensor<B, 1>,
+        Tensor<B, 1>,
+        Tensor<B, 1>,
+        Tensor<B, 1>,
+        usize,
+        bool,
+        T,
+        usize,
+    )
+    where
+        T: Float + Element,
+        B: AutodiffBackend,
+        GTarget: GradientTarget<T, B> + Sync,
+    {
+        super::build_tree(position, mom, grad, logu, v, j, epsilon, gradient_target, joint_0, rng)
+    }
+
+    pub fn leapfrog<B, T, GTarget>(
+        position: Tensor<B, 1>,
+        mom: Tensor<B, 1>,
+        grad: Tensor<B, 1>,
+        epsilon: T,
+        gradient_target: &GTarget,
+    ) -> (Tensor<B, 1>, Tensor<B, 1>, Tensor<B, 1>, Tensor<B, 1>)
+    where
+        T: Float + ElementConversion,
+        B: AutodiffBackend,
+        GTarget: GradientTarget<T, B>,
+    {
+        super::leapfrog(position, mom, grad, epsilon, gradient_target)
+    }
+
+    pub fn stop_criterion<B>(
+        position_minus: Tensor<B, 1>,
+        position_plus: Tensor<B, 1>,
+        mom_minus: Tensor<B, 1>,
+        mom_plus: Tensor<B, 1>,
+    ) -> bool
+    where
+        B: AutodiffBackend,
+    {
+        super::stop_criterion(position_minus, position_plus, mom_minus, mom_plus)
+    }
+}
+
 #[allow(dead_code)]
 fn find_reasonable_epsilon<B, T, GTarget>(
     position: Tensor<B, 1>,
